@@ -383,6 +383,36 @@ theorem evalT2_idempotent_partial {tt : TTable2} (hT : tt.WF) (n : Nat) (t : Tmp
     Resolves id (toTable2 tt) out st (.ok out) :=
   ((evalT2_refines hT n t st _ ht h (by simp) hk).2 out rfl).2
 
+/-- the hypothesis in STATIC, table-level form (decidable, syntactic): every table value has
+    separator-free output (`Tmpl2.SepFreeOut`: literal text without separator; a placeholder
+    without default, which may stay verbatim, has separator-free text; a placeholder with default
+    has a `SepFreeOut` default) and safe keys, and every key sub-template of the template and of the
+    values is `SepFreeOut` (`Tmpl2.KeysOK`, `TTable2.KeySafe`).  Then EVERY run is key-safe. -/
+theorem keySafe_of_static_table {tt : TTable2} (hS : tt.KeySafe) (n : Nat) (t : Tmpl2)
+    (st : List Toks) (hk : t.KeysOK) : keySafe tt n t st = true :=
+  keySafe_of_static hS n t st hk
+
+/-- `resolve_refines_evalT`, nested keys, under the static table hypothesis -/
+theorem resolve_refines_evalT_nested_static_partial {tt : TTable2} (hT : tt.WF) (hS : tt.KeySafe)
+    (n : Nat) (t : Tmpl2) (st : List Toks) (ht : t.WF) (hk : t.KeysOK)
+    (h : evalT2 tt n t st ≠ .outOfFuel) :
+    ∃ k, ∀ m, k ≤ m → resolve id m (toTable2 tt) (render2 t) st = evalT2 tt n t st :=
+  resolve_refines_evalT_nested_partial hT n t st ht h (keySafe_of_static hS n t st hk)
+
+/-- the static hypotheses hold for the table and template of `nonvacuous_nested` and for
+    `${${k}:d${b}}` (nested key with default); they fail for the table of the counterexample
+    (a = `k:z`), and the per-run hypothesis is strictly weaker: the table of
+    `nonvacuous_nested_default` (a1 = `x:y`, never in key position) is not `KeySafe` -/
+theorem nonvacuous_nested_static :
+    let tt : TTable2 := [([.ch 'b'], .lit [.ch '1'] .done), ([.ch 'a', .ch '1'], .lit [.ch 'x'] .done),
+      ([.ch 'k'], .lit [.ch 'u'] .done)]
+    let phB : Tmpl2 := .ph (.lit [.ch 'b'] .done) .done
+    tt.WF ∧ tt.KeySafe ∧ (Tmpl2.ph (.lit tA phB) .done).KeysOK ∧
+    (Tmpl2.phd (.ph (.lit [.ch 'k'] .done) .done) (.lit [.ch 'd'] phB) .done).KeysOK ∧
+    ¬ TTable2.KeySafe [(tA, .lit [.ch 'k', .sep, .ch 'z'] .done)] ∧
+    ¬ TTable2.KeySafe [([.ch 'a', .ch '1'], .lit [.ch 'x', .sep, .ch 'y'] .done)] := by
+  decide
+
 /-- a genuinely nested key: `${a${b}}` with b = `1`, a1 = `x`  →  `x` (hypotheses satisfied, the
     evaluator and the resolver agree) -/
 theorem nonvacuous_nested :
@@ -634,7 +664,8 @@ theorem nonvacuous_evalT_cycle :
     directions) and for NESTED KEYS (`resolve_refines_evalT_nested_partial`, AST `Tmpl2`, evaluator
     `evalT2`) under the per-run hypothesis `keySafe` = every evaluated key text is separator-free;
     without it the statement is false (`nested_needs_sepfree_counterexample`,
-    `resolve_refines_evalT_nested_unconditional_refuted`).  Under the real `norm`:
+    `resolve_refines_evalT_nested_unconditional_refuted`); static table-level form of the hypothesis:
+    `resolve_refines_evalT_nested_static_partial` (`TTable2.KeySafe`, `Tmpl2.KeysOK`).  Under the real `norm`:
     `resolve_refines_evalT_nested_relex_partial` (clean tables and templates).  Not proved: the
     converse direction (resolver ends ⇒ `evalT2` ends) for nested keys.  The harness compares with
     an independently written Go recursive-descent reference on the full grammar.
